@@ -38,6 +38,13 @@
  *   S <hexbytes> | ok <attempt> | err
  *        ConfigObject::RestoreObjects on a state file with these bytes (a Host "vh" exists, check_attempt reset to 1
  *        before): returned (check_attempt of vh afterwards) or threw
+ *   R <k1> <n1> <k2> <n2> <valuetokens> | <hexfile|-> ok <k1'> <n1'> <g1'> <k2'> <n2'> <g2'> <valuetokens'>  |  <hexfile|-> err
+ *        the state file written AND read by the real code: Host "vh" gets check_attempt k1 and a last_check_result whose output is
+ *        n1 bytes 'x' and whose `command` is the given value, Host "vh2" gets k2 and n2 bytes 'y'; ConfigObject::DumpObjects writes
+ *        the file, both objects are reset, ConfigObject::RestoreObjects reads it.  Observation: the file (hex, "-" when longer than
+ *        6000 bytes), then what the two objects hold afterwards (attempt, output length, how many output bytes are the right one,
+ *        the command value) or that RestoreObjects threw
+ *   T lines carry a last token a<N>: the largest single `operator new` request (bytes) made while the reader ran
  *   X <signal> <operation line>       printed by the parent: the child died (signal; 0 = exit code != 0, 14 = hang)
  *        while processing that operation
  *
@@ -75,6 +82,31 @@
 #include <sys/wait.h>
 #include <signal.h>
 #include <functional>
+
+#include <atomic>
+#include <new>
+#include "icinga/checkresult.hpp"
+
+/* allocation probe: the largest single request to the global operator new since the last reset (every thread).  The TLS
+ * reader's payload buffer (`payload.Append(len, 0)`) is a std::string, i.e. comes from here. */
+static std::atomic<size_t> l_MaxAlloc{0};
+void *operator new(std::size_t n)
+{
+	size_t cur = l_MaxAlloc.load(std::memory_order_relaxed);
+	while (n > cur && !l_MaxAlloc.compare_exchange_weak(cur, n, std::memory_order_relaxed)) { }
+	void *p = malloc(n ? n : 1);
+	if (!p) throw std::bad_alloc();
+	return p;
+}
+void *operator new[](std::size_t n) { return operator new(n); }
+void *operator new(std::size_t n, const std::nothrow_t&) noexcept { try { return operator new(n); } catch (...) { return nullptr; } }
+void *operator new[](std::size_t n, const std::nothrow_t&) noexcept { try { return operator new(n); } catch (...) { return nullptr; } }
+void operator delete(void *p) noexcept { free(p); }
+void operator delete(void *p, std::size_t) noexcept { free(p); }
+void operator delete[](void *p) noexcept { free(p); }
+void operator delete[](void *p, std::size_t) noexcept { free(p); }
+void operator delete(void *p, const std::nothrow_t&) noexcept { free(p); }
+void operator delete[](void *p, const std::nothrow_t&) noexcept { free(p); }
 
 using namespace icinga;
 using namespace vh;
@@ -357,9 +389,12 @@ static void DoTls(char variant, long long max, const std::string& hex, const std
 	if (bytes.size() > 32768) writer = std::thread(send); else send();
 
 	std::string obs;
+	size_t maxAlloc = 0;
 	auto body = [&](std::function<String()> read) {
 		try {
-			String p = read();
+			String p;
+			try { p = read(); } catch (...) { maxAlloc = l_MaxAlloc.load(); throw; }
+			maxAlloc = l_MaxAlloc.load();       /* before the harness's own rendering of the payload */
 			if (!decode) {
 				obs = "ok " + Hex(p.GetData());
 			} else {
@@ -382,6 +417,7 @@ static void DoTls(char variant, long long max, const std::string& hex, const std
 			obs = std::string("other:") + typeid(ex).name();
 		}
 	};
+	l_MaxAlloc.store(0);
 	if (variant == 's') {
 		body([&]() { return JsonRpc::ReadMessage(server, (ssize_t)max); });
 	} else {
@@ -406,6 +442,7 @@ static void DoTls(char variant, long long max, const std::string& hex, const std
 	if (writer.joinable()) { server->lowest_layer().close(ec); writer.join(); }
 	client->lowest_layer().close(ec);
 	server->lowest_layer().close(ec);
+	if (!decode) obs += " a" + std::to_string(maxAlloc);
 	printf("%c %c %lld %s %s | %s\n", decode ? 'M' : 'T', variant, max, hex.c_str(), cuts.c_str(), obs.c_str());
 }
 
@@ -512,18 +549,78 @@ static void DoConn(int auth, int ep, const std::string& items, const std::string
 
 /* ---------------------------------------------------------------- state file: ConfigObject::RestoreObjects */
 
+/* the two probe objects of the state-file cases */
+static Host::Ptr StateHost(int which)
+{
+	static Host::Ptr hosts[2];
+	if (!hosts[0]) {
+		const char *names[2] = { "vh", "vh2" };
+		for (int i = 0; i < 2; i++) {
+			hosts[i] = new Host();
+			hosts[i]->SetName(names[i]);
+			hosts[i]->Register();
+		}
+		Configuration::Concurrency = 2;
+	}
+	return hosts[which];
+}
+
+static void Render(const Value& v, std::string& out, int depth);
+static bool ParseTokens(const std::vector<std::string>& toks, size_t& pos, Value& out, int depth);
+
+/* the state file written by ConfigObject::DumpObjects and read back by ConfigObject::RestoreObjects */
+static void DoStateRoundtrip(long long k1, size_t n1, long long k2, size_t n2, const std::string& toks)
+{
+	if (l_Emit) { Emit("R " + std::to_string(k1) + " " + std::to_string(n1) + " " + std::to_string(k2) + " " + std::to_string(n2) + " " + toks); return; }
+	Value v;
+	{
+		auto tl = Split(toks, ',');
+		size_t pos = 0;
+		if (!ParseTokens(tl, pos, v, 0) || pos != tl.size()) { fprintf(stderr, "bad value tokens\n"); _exit(2); }
+	}
+	Host::Ptr h[2] = { StateHost(0), StateHost(1) };
+	long long ks[2] = { k1, k2 };
+	size_t ns[2] = { n1, n2 };
+	for (int i = 0; i < 2; i++) {
+		CheckResult::Ptr cr = new CheckResult();
+		cr->SetOutput(String(std::string(ns[i], i ? 'y' : 'x')));
+		if (i == 0) cr->SetCommand(v);
+		h[i]->SetCheckAttempt((int)ks[i]);
+		h[i]->SetLastCheckResult(cr);
+	}
+	char path[64];
+	snprintf(path, sizeof path, "/tmp/vd_c20_state.%d", (int)getpid());
+	std::string obs, file;
+	try {
+		ConfigObject::DumpObjects(path, FAState);
+		{ std::ifstream f(path, std::ios::binary); std::stringstream ss; ss << f.rdbuf(); file = ss.str(); }
+		for (int i = 0; i < 2; i++) { h[i]->SetCheckAttempt(1); h[i]->SetLastCheckResult(nullptr); }
+		ConfigObject::RestoreObjects(path, FAState);
+		obs = "ok";
+		for (int i = 0; i < 2; i++) {
+			CheckResult::Ptr cr = h[i]->GetLastCheckResult();
+			std::string out = cr ? cr->GetOutput().GetData() : std::string();
+			size_t good = 0;
+			for (char c : out) if (c == (i ? 'y' : 'x')) good++;
+			obs += " " + std::to_string(h[i]->GetCheckAttempt()) + " " + std::to_string(out.size()) + " " + std::to_string(good);
+		}
+		std::string back;
+		CheckResult::Ptr cr = h[0]->GetLastCheckResult();
+		Render(cr ? cr->GetCommand() : Value(Empty), back, 0);
+		obs += " " + back;
+	} catch (const std::exception&) {
+		obs = "err";
+	}
+	unlink(path);
+	printf("R %lld %zu %lld %zu %s | %s %s\n", k1, n1, k2, n2, toks.c_str(), file.size() <= 6000 && !file.empty() ? Hex(file).c_str() : "-", obs.c_str());
+}
+
 static void DoState(const std::string& hex)
 {
 	if (l_Emit) { Emit("S " + hex); return; }
 	std::string bytes;
 	if (!UnHex(hex, bytes)) { fprintf(stderr, "bad hex\n"); _exit(2); }
-	static Host::Ptr host;
-	if (!host) {
-		host = new Host();
-		host->SetName("vh");
-		host->Register();
-		Configuration::Concurrency = 2;
-	}
+	Host::Ptr host = StateHost(0);
 	host->SetCheckAttempt(1);
 	char path[64];
 	snprintf(path, sizeof path, "/tmp/vd_c20_state.%d", (int)getpid());
@@ -1230,6 +1327,32 @@ static void Generate(uint64_t seed, bool thorough)
 			}
 			DoState(Hex(f));
 		}
+		/* well-framed files with LARGE records (the writer knows no limit: configobject.cpp:465-503) before and behind the applicable one */
+		auto bigRec = [](size_t n) { return "{\"type\":\"Host\",\"name\":\"nohost\",\"update\":{\"pad\":\"" + std::string(n, 'x') + "\"}}"; };
+		for (size_t n : { (size_t)4000, (size_t)65000, (size_t)65536 - 60, (size_t)65536, (size_t)70000, (size_t)140000, (size_t)300000 }) {
+			DoState(Hex(Frame(bigRec(n)) + Frame(valid)));
+			DoState(Hex(Frame(valid) + Frame(bigRec(n))));
+		}
+	}
+
+	/* --- the state file written by ConfigObject::DumpObjects and read back by ConfigObject::RestoreObjects: records of every size
+	 *     (below and above every buffer size and limit of the readers: 4 KiB fills, 64 KiB, 1 MiB), arbitrary values inside */
+	{
+		static const size_t sizes[] = { 0, 1, 100, 4000, 4096, 65000, 65535, 65536, 66000, 131072, 200000, 1048576, 1100000, 3000000 };
+		for (size_t n : sizes) {
+			DoStateRoundtrip(2, n, 3, 5, "z");
+			DoStateRoundtrip(4, 7, 2, n, "s6162");
+		}
+		if (thorough) { DoStateRoundtrip(2, 20000000, 3, 5, "z"); DoStateRoundtrip(2, 5, 3, 20000000, "z"); }
+		for (int i = 0; i < (thorough ? 3000 : 400); i++) {
+			int budget = 1 + (int)r.below(r.below(10) == 0 ? 60 : 12);
+			Value v = GenValue(r, 1 + (int)r.below(5), budget);
+			std::string toks;
+			Render(v, toks);
+			auto len = [&]() -> size_t { return r.below(12) == 0 ? (size_t)r.below(300000) : (size_t)r.below(200); };
+			size_t n1 = len(), n2 = len();
+			DoStateRoundtrip(1 + (long long)r.below(9), n1, 1 + (long long)r.below(9), n2, toks);
+		}
 	}
 }
 
@@ -1254,6 +1377,7 @@ static bool ExecLine(const std::string& line)
 	else if (w[0] == "U" && w.size() == 2) DoUtf8(w[1]);
 	else if (w[0] == "C" && w.size() == 5) DoConn(atoi(w[1].c_str()), atoi(w[2].c_str()), w[3], w[4]);
 	else if (w[0] == "S" && w.size() == 2) DoState(w[1]);
+	else if (w[0] == "R" && w.size() == 6) DoStateRoundtrip(atoll(w[1].c_str()), strtoull(w[2].c_str(), nullptr, 10), atoll(w[3].c_str()), strtoull(w[4].c_str(), nullptr, 10), w[5]);
 	else return false;
 	return true;
 }
